@@ -1,5 +1,5 @@
 (* Dispatch.v — one entry point for the OCaml driver: property number -> functions. *)
-From Molt Require Import Model.Base Model.Tokenizer Check.C05.
+From Molt Require Import Model.Base Model.Tokenizer Check.C05 Check.C02.
 
 Record prop_fns := {
   pf_model_obs : term -> term;
@@ -15,6 +15,8 @@ Definition dispatch (p : N) : prop_fns :=
   match p with
   | 5%N => {| pf_model_obs := c05_model_obs; pf_spec_ok := c05_spec_ok;
               pf_known := c05_known; pf_nontrivial := c05_nontrivial |}
+  | 2%N => {| pf_model_obs := c02_model_obs; pf_spec_ok := c02_spec_ok;
+              pf_known := c02_known; pf_nontrivial := c02_nontrivial |}
   | _ => no_prop
   end.
 
